@@ -104,6 +104,10 @@ def hs_faults(ck, s):
     yield "hs-mac-failure-frame", "invalidKey", [hello, hsframe(b"\x01" + MAC)] + rest
     yield "hs-other-error-frame", "handshake", [hello, hsframe(b"\x01" + b"Bad handshake packet len")] + rest
     yield "hs-error-frame-marker-7", "handshake", [hello, hsframe(b"\x07" + b"whatever")] + rest
+    # only the exact MAC-failure text means "wrong key"; every other explanation is a handshake error
+    for k_, text in enumerate([b"Handshake error", b"Handshake", b"Handshake MAC failure ", b"handshake mac failure",
+                               b"Handshake MAC failur", b"", b"Handshake MAC failure\n", b"MAC failure"]):
+        yield f"hs-error-text:{k_}", "handshake", [hello, hsframe(b"\x01" + text)] + rest
     yield "hs-error-frame-bad-utf8", "raw:UnicodeDecodeError", [hello, hsframe(b"\x01\xff\xfe\xfd")] + rest
     yield "hs-empty-frame", "raw:IndexError", [hello, hsframe(b"")] + rest
     n = len(hs.real)
